@@ -367,6 +367,9 @@ pub enum Recipe {
     SaturatedRandom,
     /// a randomly drawn control-byte layout (runs of FULL / DELETED / EMPTY, displaced elements), see `layout_plan`
     Layout,
+    /// a table of 2^18 (sometimes 2^19/2^20) buckets holding a few dozen elements, some removed again:
+    /// reaches code that is gated on the table size without needing many elements
+    HugeSparse,
     Tombstoned,
     GrownThenShrunk,
     Drained,
@@ -397,8 +400,20 @@ pub struct Spec {
 }
 
 impl Spec {
+    /// Exactly the recipe asked for (no substitution by a huge table).
+    pub fn exact(rng: &mut Rng, recipe: Recipe) -> Spec {
+        let mut s = Spec::random(rng, recipe);
+        if s.recipe != recipe {
+            s = Spec { recipe, plan: crate::mapdrv::pick_plan(rng), ..s };
+        }
+        s
+    }
     pub fn random(rng: &mut Rng, recipe: Recipe) -> Spec {
+        // one state in 64 is replaced by a very large, sparse table (expensive to build and to validate, hence rare)
+        let recipe = if rng.below(64) == 0 && !crate::util::slow_lane() { Recipe::HugeSparse } else { recipe };
         let plan = match recipe {
+            // wrap-around at the end of a very large table matters most
+            Recipe::HugeSparse => *rng.pick(&[Plan::Tail, Plan::Tail, Plan::Max, Plan::Mixed, Plan::Ident, Plan::SamePos]),
             // a layout is realised through position = id
             Recipe::Layout => *rng.pick(&[Plan::Ident, Plan::Ident, Plan::IdentOneTag]),
             Recipe::Saturated | Recipe::SaturatedRandom | Recipe::Tombstoned if rng.chance(3, 4) => {
@@ -592,6 +607,29 @@ pub fn build<C: Coll>(spec: &Spec) -> C {
                     live.push(next);
                     next += 1;
                     guard += 1;
+                }
+            }
+            c
+        }
+        Recipe::HugeSparse => {
+            // keep the block below ~16 MiB; element types too large for that (or the Miri lane) get a multi-group table instead
+            let lg = *rng.pick(&[18u32, 18, 18, 19, 20]);
+            let lg = if (C::elem_size().max(1) << lg) > (16 << 20) { 18 } else { lg };
+            if slow || (C::elem_size().max(1) << lg) > (16 << 20) {
+                let mut c = C::new_unallocated(bh, 0);
+                for id in 0..lim(40) {
+                    c.put(id, g());
+                }
+                return c;
+            }
+            let mut c = C::with_cap(bh, (1usize << lg) / 8 * 7);
+            let n = lim(1 + rng.below(40) as u32);
+            for id in 0..n {
+                c.put(id, g());
+            }
+            for id in 0..n {
+                if rng.chance(1, 3) {
+                    c.del(id);
                 }
             }
             c
